@@ -157,6 +157,34 @@ def table_selections(frame, ego_q, n, m):
     return Out(parts=parts, obs=obs)
 
 
+def table_rows_via_add(ego_q, ego_q2):
+    """Rows written by add() for two map-frame frames that carry the same frame name (as frames of two datasets do)
+    but different ego poses: every row holds the ego-frame pose for its own frame (auxiliary, on path witnesses)."""
+    out = []
+    for k, q in enumerate((ego_q, ego_q2)):
+        pose = S.Pose("map", q, tag=f"ego{k}")
+        ests = [S.SObj("e0", pose, CAR, real(f"f{k}_e0_ego_x", 5, 60), 0.0, conf=0.9, unix_time=k * 100000)]
+        gts = [S.SObj("g0", pose, CAR, real(f"f{k}_g0_ego_x", 5, 60), 0.0, is_gt=True, unix_time=k * 100000)]
+        crit = ("xy", [120.0, 120.0], [50.0, 50.0])
+        fr, _ = S.run_frame(pose, ests, gts, TARGETS, "default", crit, [2.0, 2.0], frame_name="0", unix_time=k * 100000)
+        out.append((fr, ests, gts))
+    parts = {"frames_evaluated": all(_n_items(f[0]) > 0 for f in out)}
+    obs = {"items": [_n_items(f[0]) for f in out]}
+    if not symx.is_symbolic():
+        an = _analyzer(1)
+        an.add([f[0] for f in out])
+        df = an.df
+        ok = True
+        for (fr, ests, gts), ts in zip(out, (0, 100000)):
+            rows = df[df["timestamp"] == ts]
+            for o in ests + gts:
+                r = rows[rows["uuid"] == o.uuid]
+                ok = ok and len(r) >= 1 and all(abs(float(x) - float(o.ex)) < 1e-6 for x in r["x"]) and all(
+                    abs(float(y) - float(o.ey)) < 1e-6 for y in r["y"])
+        parts["aux_rows_hold_ego_frame_pose_of_their_own_frame"] = bool(ok)
+    return Out(parts=parts, obs=obs)
+
+
 def table_counts(frame, ego_q, n, m):
     """The pandas table itself (auxiliary: evaluated on the real code at the witness of every explored path)."""
     frs = _frames(frame, ego_q, n, m, 1, [CAR, FP])
@@ -202,6 +230,9 @@ def obligations(pid, tier):
         Obligation("table_selections", table_selections, cases=[dict(frame="base_link", ego_q="id", n=1, m=1)] + (
             [] if quick else [dict(frame="map", ego_q="yaw_3_4_5", n=2, m=1)]), extras=S.frame_extras,
                    desc="auxiliary: get(scene=…, frame=…) selections of the table, index 0 included, on path witnesses"),
+        Obligation("table_rows_via_add", table_rows_via_add, cases=[dict(ego_q="yaw_3_4_5", ego_q2="yaw_neg")] + (
+            [] if quick else [dict(ego_q="yaw90", ego_q2="id")]), extras=S.frame_extras,
+                   desc="auxiliary: rows written by add() for same-named frames with different ego poses"),
         Obligation("table_counts", table_counts, cases=cnt, extras=S.frame_extras,
                    desc="auxiliary: the pandas table built by add() is compared with the pass/fail lists on the real code "
                         "at the solver-generated witness of every explored path"),
